@@ -66,6 +66,14 @@ func foldValue(v ssa.Value, env benv, depth int) bval {
 				return r
 			}
 		}
+		if x.Op == token.MUL {
+			// a captured variable with a value supplied by the caller of the fold
+			if fv, ok := x.X.(*ssa.FreeVar); ok {
+				if r, ok := env[fv]; ok {
+					return r
+				}
+			}
+		}
 	case *ssa.BinOp:
 		a, b := foldValue(x.X, env, depth+1), foldValue(x.Y, env, depth+1)
 		if !a.known || !b.known || a.isB != b.isB {
@@ -97,6 +105,10 @@ func foldValue(v ssa.Value, env benv, depth int) bval {
 			return bval{known: true, i: a.i + b.i}
 		case token.SUB:
 			return bval{known: true, i: a.i - b.i}
+		case token.REM:
+			if b.i != 0 {
+				return bval{known: true, i: a.i % b.i}
+			}
 		case token.OR:
 			return bval{known: true, i: a.i | b.i}
 		case token.AND:
@@ -117,10 +129,18 @@ func foldValue(v ssa.Value, env benv, depth int) bval {
 
 // foldFunc evaluates a pure function on (partially) known arguments by following its control flow.
 func foldFunc(fn *ssa.Function, args []bval, depth int) bval {
+	return foldFuncEnv(fn, args, nil, depth)
+}
+
+// foldFuncEnv additionally takes values for captured variables.
+func foldFuncEnv(fn *ssa.Function, args []bval, captured benv, depth int) bval {
 	if depth > 30 || len(fn.Blocks) == 0 {
 		return bval{}
 	}
 	env := benv{}
+	for k, v := range captured {
+		env[k] = v
+	}
 	for i, p := range fn.Params {
 		if i < len(args) && args[i].known {
 			env[p] = args[i]
